@@ -42,7 +42,8 @@ def _conds(tier):
         c("01", "-1,-1", clock="duration", vmax=1, special=1)
         c("01", "-1,0", fn="h_run2")
     else:
-        for kinds, parents in _skeletons(3):
+        pick = {"000", "111", "222", "012", "120", "201", "011", "100", "221"}
+        for kinds, parents in [sk for sk in _skeletons(3) if sk[0] in pick]:
             for cb in (-1, 0, 1, 2):
                 if parents.count("-1") == 3 and cb >= 0:
                     for ct in (0, 1, 2):
@@ -72,7 +73,7 @@ def run(ctx):
         ctx.source_hash(f)
     ctx.bounds = {
         "program": "table of K slots; skeleton (kind abs/rel/now and parent of every slot) fixed per condition; "
-                   "K=3 on the int clock (quick: 4 skeletons; thorough: all 162), K=2 on float and Duration clocks",
+                   "K=3 on the int clock (quick: 4 skeletons; thorough: 9 kind patterns x all 6 parent structures x cancelling slot), K=2 on float and Duration clocks",
         "symbolic": "times/delays -1..4 (negative delay / time before the clock = illegal request), priorities "
                     "{1,5,10}, one cancellation (who, target) incl. already executed / refused targets, replication "
                     "length 1..5; float clock: halves, plus NaN and +inf request times; Duration: 0.5 s grid, plus NaN and +inf Durations",
